@@ -635,15 +635,40 @@ def short_len(offset, length):
     return 1 + h % length          # "random": any non-empty prefix
 
 
-def install_short_reads():
-    from paramiko.sftp_handle import SFTPHandle
-    orig = SFTPHandle.read
+class ShortFile:
+    """Backing file object of a served handle that returns fewer bytes than asked (pipe / raw-device like),
+    decided by the seeded SHORT mode.  The real SFTPHandle.read runs on top of it, unmodified."""
 
-    def read(self, offset, length):
-        SHORT["maxlen"] = max(SHORT["maxlen"], length)
-        return orig(self, offset, short_len(offset, length))
-    SFTPHandle.read = read
-    return orig
+    def __init__(self, inner):
+        self._inner = inner
+
+    def read(self, n=-1):
+        if n is None or n < 0:
+            return self._inner.read(n)
+        SHORT["maxlen"] = max(SHORT["maxlen"], n)
+        return self._inner.read(short_len(self._inner.tell(), n))
+
+    def __getattr__(self, name):
+        return getattr(self._inner, name)
+
+
+def install_short_reads():
+    """Make every handle the stub server opens read from a short-reading backing file.  Returns the
+    (untouched) SFTPHandle.read so that callers' restore code stays a no-op."""
+    from paramiko.sftp_handle import SFTPHandle
+    from _stub_sftp import StubSFTPServer
+    if not getattr(StubSFTPServer.open, "_c28_short", False):
+        orig_open = StubSFTPServer.open
+
+        def open_(self, path, flags, attr):
+            fobj = orig_open(self, path, flags, attr)
+            rf = getattr(fobj, "readfile", None)
+            if rf is not None and not isinstance(rf, ShortFile):
+                fobj.readfile = ShortFile(rf)
+            return fobj
+        open_._c28_short = True
+        StubSFTPServer.open = open_
+    return SFTPHandle.read
 
 
 def gen_real_case(rng, thorough):
@@ -853,6 +878,16 @@ REGRESSIONS = [
      "same switch point with max_concurrent_requests=1 and two chunks",
      {"size": 40000, "mode": "full", "seed": 20, "pause": 0.15,
       "ops": [["prefetch", 1, None], ["read", 39000], ["wait", 0.8], ["read", 5000]]}),
+    ("server-short-read-then-adjacent-read",
+     "the served file object returns short reads; after prefetch() a forward seek into a later chunk must still "
+     "return the file's bytes (the server has to serve every READ from its own offset)",
+     {"size": 100000, "mode": "half", "seed": 22,
+      "ops": [["prefetch", None, None], ["seek", 32768], ["read", 1000], ["seek", 65541], ["read", 100]]}),
+    ("server-short-read-then-adjacent-read-readv",
+     "same through readv of adjacent large ranges followed by a second readv that re-uses the buffers",
+     {"size": 120000, "mode": "random", "seed": 23,
+      "ops": [["readv", [[0, 70000]], None], ["readv", [[32768, 500], [65536, 500], [40000, 30000]], None],
+              ["seek", 98304], ["read", 2000]]}),
     ("concurrent-send-interleaves",
      "BaseSFTP._send_packet is not a critical section: while a prefetch thread is still sending READ requests, another "
      "request of the same SFTPClient that needs more than one sock.send (partial sends) gets the thread's bytes in "
@@ -932,7 +967,7 @@ def run(ctx):
                 "MAX_REQUEST_SIZE 4..32, bufsize 0/3/10/default, prefetch with right / too large / too small size, "
                 "seeks, reads, readv with overlapping / unordered / beyond-EOF chunks, responses delivered in random "
                 "order with random short reads, occasional failure status). Real server: files 0..300 KiB (boundaries "
-                "32767/32768/32769/65536), handle.read returns full / random / half / tiny prefixes, prefetch with cap "
+                "32767/32768/32769/65536), the served backing file object returns full / random / half / tiny prefixes under the real SFTPHandle.read, prefetch with cap "
                 "None or 1..8, random seeks, readv lists overlapping / unordered / beyond EOF. A case is non-trivial "
                 "when distinct and its file and op list are non-empty.")
     ctx.trusted += ["model coq/Model/C28.v is hand-written; tied to paramiko/sftp_file.py (and the read loop of "
